@@ -241,3 +241,7 @@ extend("C10", "Engine V also proves Math.factorial(n) == n! (loop invariant over
 extend("C13", "Engine V proves the norm under the tolerance test for all inputs: abs of a number, and for a sequence of ANY length an upper bound of every |x_k| that is attained "
               "(the infinity norm); the verdict logic around it is decided per operand pair by engine S.")
 ENGINE_V += ["C13", "C09", "C10"]
+extend("C14", "Engine V proves at shape level, for ALL curves and tolerances: knot_clean / degree_clean / clean TERMINATE (loop variants npts + degree resp. degree through "
+              "the proved contracts of knot_remove / degree_decrease), keep the representation invariant, never enlarge the curve, and raise only AssertionError for a "
+              "negative tolerance, with the curve unchanged.")
+ENGINE_V += ["C14"]
